@@ -85,6 +85,24 @@ pub async fn scenario(n: usize, max_retry: i32, sqlite: bool, ops: usize, rng: &
                 "retry": e.retry_times, "stored": stored}));
         });
     }
+    // ... and the final message of the process (workflow completed): it is generated when nothing
+    // is running any more, and must be re-sent like any other
+    let chan2 = engine.channel_with_options(&ChannelOptions {
+        id: "ackfinal".to_string(),
+        ack: true,
+        r#type: "workflow".to_string(),
+        state: "completed".to_string(),
+        ..Default::default()
+    });
+    {
+        let deliveries = deliveries.clone();
+        let store = verif::store(&engine);
+        chan2.on_message(move |e| {
+            let stored = store.messages().find(&e.id).is_ok();
+            deliveries.lock().unwrap().push(json!({"mid": e.id, "tid": "final", "key": e.key,
+                "retry": e.retry_times, "stored": stored}));
+        });
+    }
     let exec = engine.executor();
     let wf = Workflow::from_json(&model(n)).unwrap();
     exec.model().deploy(&wf).unwrap();
@@ -113,7 +131,8 @@ pub async fn scenario(n: usize, max_retry: i32, sqlite: bool, ops: usize, rng: &
     deliveries.lock().unwrap().clear();
     // act tids by index
     let dump = verif::dump_proc(&engine, "p1").unwrap();
-    let mut tids: Vec<String> = vec![String::new(); n + 1];
+    let mut tids: Vec<String> = vec![String::new(); n + 2];
+    tids[n + 1] = "final".to_string();
     for t in dump["tasks"].as_array().unwrap() {
         if t["kind"] == "act" {
             let nid = t["nid"].as_str().unwrap();
@@ -121,8 +140,8 @@ pub async fn scenario(n: usize, max_retry: i32, sqlite: bool, ops: usize, rng: &
             tids[i] = t["tid"].as_str().unwrap().to_string();
         }
     }
-    let mut mids: Vec<String> = vec![String::new(); n + 1]; // message ids once emitted
-    let mut acted: Vec<bool> = vec![false; n + 1];
+    let mut mids: Vec<String> = vec![String::new(); n + 2]; // message ids once emitted (n+1: the final one)
+    let mut acted: Vec<bool> = vec![false; n + 2];
     let mut lines = vec![json!({"ev": "ackmodel", "n": n, "max": max_retry, "backend": if sqlite { "sqlite" } else { "mem" },
         "interval": 2})];
 
@@ -131,7 +150,7 @@ pub async fn scenario(n: usize, max_retry: i32, sqlite: bool, ops: usize, rng: &
     for _ in 0..ops {
         let now_units = (verif::clock_now() - BASE_MS) / UNIT_MS;
         let unsent: Vec<usize> = (1..=n).filter(|i| mids[*i].is_empty()).collect();
-        let sent: Vec<usize> = (1..=n).filter(|i| !mids[*i].is_empty()).collect();
+        let sent: Vec<usize> = (1..=n + 1).filter(|i| !mids[*i].is_empty()).collect();
         // pick an operation
         let r: f64 = rng.r#gen();
         let (op, id): (&str, i64) = if !unsent.is_empty() && (sent.is_empty() || r < 0.15) {
@@ -142,8 +161,8 @@ pub async fn scenario(n: usize, max_retry: i32, sqlite: bool, ops: usize, rng: &
             ("Advance", if rng.gen_bool(0.5) { 1 } else { 3 })
         } else if r < 0.75 && !sent.is_empty() {
             ("Ack", sent[rng.gen_range(0..sent.len())] as i64)
-        } else if r < 0.83 && sent.iter().any(|i| !acted[*i]) {
-            let c: Vec<usize> = sent.iter().cloned().filter(|i| !acted[*i]).collect();
+        } else if r < 0.83 && sent.iter().any(|i| *i <= n && !acted[*i]) {
+            let c: Vec<usize> = sent.iter().cloned().filter(|i| *i <= n && !acted[*i]).collect();
             ("ActOn", c[rng.gen_range(0..c.len())] as i64)
         } else if r < 0.90 {
             ("Redo", 0)
@@ -201,7 +220,7 @@ pub async fn scenario(n: usize, max_retry: i32, sqlite: bool, ops: usize, rng: &
         }
         // stored rows by message index
         let mut rows = Vec::new();
-        for i in 1..=n {
+        for i in 1..=n + 1 {
             if mids[i].is_empty() {
                 continue;
             }
